@@ -438,7 +438,13 @@ def _lookup_semantics(ctx, repo):
     try:
         for depth in range(4):                       # how many components of a.b.c have a whitelist node
             for mask in range(2 ** (depth + 1)):     # which of root, a, a.b, … carry a configuration
-                for bl in ('none', 'a', 'a.b', 'a.b.c', 'a.x'):
+                for bl in ('none', 'a', 'a.b', 'a.b.c', 'a.x', 'a:leaf-with-children', 'a.b:leaf-with-children'):
+                    # the blacklisted leaf is one shared object: skipping a subpackage of an already skipped package gives it
+                    # children — it is still the leaf (recognised by identity, not by being empty)
+                    BLACKLISTED.kids.clear()
+                    if bl.endswith(':leaf-with-children'):
+                        BLACKLISTED['later'] = _T()
+                        bl = bl.split(':')[0]
                     root = _T(confs[0] if mask & 1 else None)
                     cur = root
                     for d in range(1, depth + 1):
